@@ -248,6 +248,12 @@ def exec_field(case):
         exp = expected(field, want, base, glyphs)
         if not matches(field, exp, got, cfg):
             return [bad("C20.option-reaches-font", f"{field} given by {mode} (value {want!r}): observable is {got!r}, expected {exp!r}")]
+        if field == "upem" and "COLR" in font and font["COLR"].version == 1:
+            # clipbox_quantization is not given: its documented default is 2% of *this* upem (the C05 reference: round(0.02 * upem))
+            step = round(0.02 * want)
+            edges = observe("clipbox_quantization", font, w / "build", out, cfg, glyphs)
+            if not edges or any(v % step for v in edges):
+                return [bad("C20.option-reaches-font", f"upem={want} given by {mode}, clipbox_quantization omitted: clip box edges {edges} are not multiples of round(0.02*upem) = {step}")]
         return [ok("C20.option", f"{field}:{mode}")]
     finally:
         shutil.rmtree(w, ignore_errors=True)
